@@ -420,15 +420,125 @@ def ma_vstack(arrs):
     return MaskedArray(d, _new(mc, d.shape, 'b'))
 
 
+_CORE_MAXIMUM, _CORE_MINIMUM = S.maximum, S.minimum
+
+
+def _ufunc_masked(fn, name, a, b, out):
+    """a plain numpy ufunc applied to operands of which at least one is a MaskedArray (or with out=): numpy computes
+    on the RAW data of both operands; MaskedArray.__array_wrap__ then gives the result the union of the operands'
+    masks (the data under the mask is whatever the raw computation produced); with out= the values are written into
+    out's buffer, and out - if it is a MaskedArray - receives a NEW mask array (union incl. its own old mask); a
+    plain-ndarray out stays a plain ndarray: the masks of the operands are dropped"""
+    da = a.data if isinstance(a, MaskedArray) else a
+    db = b.data if isinstance(b, MaskedArray) else b
+    if not isinstance(da, ndarray):
+        da = S._full_like(db, da)
+    r = fn(da, db)
+    if r is NotImplemented:
+        r = fn(db, da) if name in ('maximum', 'minimum', 'add', 'multiply') else r
+    masked_ops = [x for x in (a, b) if isinstance(x, MaskedArray)]
+    m = None
+    if masked_ops and (out is None or isinstance(out, MaskedArray)):
+        cells = None
+        for x in masked_ops:
+            mc = S._bc(x._mask, r.shape) if x._mask is not None else [S._F()] * r.size
+            cells = mc if cells is None else [S._simp(z3.Or(p_, q_)) for p_, q_ in zip(cells, mc)]
+        m = _new(cells, r.shape, 'b')
+    if out is None:
+        return MaskedArray(r, m) if masked_ops else r
+    if r.kind == 'f' and out.kind in ('i', 'b'):
+        raise S.UFuncTypeError("Cannot cast ufunc '%s' output from dtype('float64') to dtype('int64') with casting rule 'same_kind'" % name)
+    if tuple(r.shape) != tuple(out.shape):
+        raise ValueError("non-broadcastable output operand with shape %s doesn't match the broadcast shape %s" % (out.shape, r.shape))
+    for i_, v in zip(out.idx.ravel().tolist(), r.cells()):
+        out.buf[i_] = S._cast(v, r.kind, out.kind) if r.kind != out.kind else v
+    if isinstance(out, MaskedArray):
+        out._mask = m if m is not None else out._mask
+    return out
+
+
 def _binary(fn, name):
     def f(a, b, out=None, **kw):
-        if out is not None:
-            raise Inconclusive("out= argument not modelled")
+        if kw.get('where', True) is not True:
+            raise Inconclusive("where= argument of a ufunc is not modelled")
+        if out is not None or (name in ('maximum', 'minimum') and (isinstance(a, MaskedArray) or isinstance(b, MaskedArray))):
+            if isinstance(out, tuple):
+                out = out[0]
+            if not isinstance(a, ndarray) and not isinstance(b, ndarray):
+                raise Inconclusive("ufunc with out= on scalars")
+            if not isinstance(b, ndarray):
+                b = S._full_like(a.data if isinstance(a, MaskedArray) else a, b)
+            return _ufunc_masked(fn, name, a, b, out)
         if isinstance(a, ndarray) or isinstance(b, ndarray):
             return fn(a, b)
         return fn(SymNum(lift(a), symx.kind_of(a), True), b)
     f.__name__ = name
     return f
+
+
+def np_can_cast(from_, to, casting='safe'):
+    def k(x):
+        if isinstance(x, ndarray):
+            return x.kind
+        if isinstance(x, S._DType):
+            return x.kind
+        return S._kind_of_dtype(x)
+    a, b = k(from_), k(to)
+    if casting in ('unsafe',):
+        return True
+    order = {'b': 0, 'i': 1, 'f': 2}
+    if casting in ('safe', 'no', 'equiv'):
+        return order[a] <= order[b] if casting == 'safe' else a == b
+    if casting == 'same_kind':
+        return order[a] <= order[b]
+    raise Inconclusive("can_cast casting=%r" % (casting,))
+
+
+def _axis_fold(a, axis, pick):
+    """min / max along an axis: masked cells are skipped, a column with no valid cell is masked"""
+    n, oshape, dc, mc = _reduce_axis(a, axis)
+    vals, ms = [], []
+    for c in range(dc.shape[1]):
+        col = [a.buf[dc[r, c]] for r in range(n)]
+        mk = [a._mask.buf[mc[r, c]] for r in range(n)] if mc is not None else [S._F()] * n
+        acc, valid = col[0], S._simp(z3.Not(mk[0]))
+        for v, m_ in zip(col[1:], mk[1:]):
+            acc = z3.If(z3.And(z3.Not(m_), z3.Or(z3.Not(valid), pick(v, acc))), v, acc)
+            valid = S._simp(z3.Or(valid, z3.Not(m_)))
+        vals.append(S._simp(acc))
+        ms.append(S._simp(z3.Not(valid)))
+    d = _new(vals, oshape, a.kind)
+    if isinstance(a, MaskedArray):
+        return MaskedArray(d, _new(ms, oshape, 'b') if mc is not None else None)
+    return d
+
+
+def _axis_bool(a, axis, op):
+    n, oshape, dc, mc = _reduce_axis(a, axis)
+    vals = []
+    for c in range(dc.shape[1]):
+        col = [a.buf[dc[r, c]] for r in range(n)]
+        if a.kind != 'b':
+            col = [x != 0 for x in col]
+        vals.append(S._simp(op(*col)) if n > 1 else col[0])
+    return _new(vals, oshape, 'b')
+
+
+def ma_masked_values(x, value, rtol=1e-5, atol=1e-8, copy=True, shrink=True):
+    """numpy.ma.masked_values: floating data is compared with isclose(x, value, rtol, atol), integer data exactly;
+    the result carries the value as fill value; copy=False shares the data, the mask is a new array"""
+    base = x if isinstance(x, ndarray) else _as_nd(x)
+    d = base.data if isinstance(base, MaskedArray) else base
+    t, k = S._scalar_term(value)
+    if d.kind == 'f':
+        tol = z3.RealVal(str(atol)) + z3.RealVal(str(rtol)) * z3.If(t < 0, -t, t)
+        tol = z3.simplify(tol)
+        cond = [S._simp(z3.And(c - t <= tol, t - c <= tol)) for c in d.cells()]
+    else:
+        cond = [S._simp(c == t) for c in d.cells()]
+    old = base.maskcells() if isinstance(base, MaskedArray) else [S._F()] * d.size
+    new = [S._simp(z3.Or(c, o)) for c, o in zip(cond, old)]
+    return MaskedArray(d.copy() if copy else ndarray(d.buf, d.idx, d.kind), _new(new, d.shape, 'b'), value)
 
 
 def np_negative(a):
@@ -465,10 +575,14 @@ def np_isfinite(a):
 
 
 def np_any(a, axis=None):
+    if axis is not None and isinstance(a, ndarray):
+        return _axis_bool(a, axis, z3.Or)
     return a.any() if isinstance(a, ndarray) else bool(a)
 
 
 def np_all(a, axis=None):
+    if axis is not None and isinstance(a, ndarray):
+        return _axis_bool(a, axis, z3.And)
     return a.all() if isinstance(a, ndarray) else bool(a)
 
 
@@ -699,6 +813,13 @@ def apply():
     ndarray.sort = _nd_sort
     ndarray.__rtruediv__ = _nd_rtruediv
     MaskedArray.sum = arr_sum
+    _ma_min0, _ma_max0, _nd_min0, _nd_max0, _nd_any0, _nd_all0 = MaskedArray.min, MaskedArray.max, ndarray.min, ndarray.max, ndarray.any, ndarray.all
+    MaskedArray.min = lambda self, axis=None, **kw: _ma_min0(self) if axis is None else _axis_fold(self, axis, lambda v, a: v < a)
+    MaskedArray.max = lambda self, axis=None, **kw: _ma_max0(self) if axis is None else _axis_fold(self, axis, lambda v, a: v > a)
+    ndarray.min = lambda self, axis=None, **kw: _nd_min0(self) if axis is None else _axis_fold(self, axis, lambda v, a: v < a)
+    ndarray.max = lambda self, axis=None, **kw: _nd_max0(self) if axis is None else _axis_fold(self, axis, lambda v, a: v > a)
+    ndarray.any = lambda self, axis=None, **kw: _nd_any0(self) if axis is None else _axis_bool(self, axis, z3.Or)
+    ndarray.all = lambda self, axis=None, **kw: _nd_all0(self) if axis is None else _axis_bool(self, axis, z3.And)
     MaskedArray.reshape = _ma_reshape
     MaskedArray.ravel = _ma_ravel
     MaskedArray.__setitem__ = _ma_setitem
@@ -732,6 +853,11 @@ def apply():
     N.multiply = _binary(operator.mul, 'multiply')
     N.divide = N.true_divide = _binary(operator.truediv, 'true_divide')
     N.negative = np_negative
+    N.maximum = _binary(_CORE_MAXIMUM, 'maximum')
+    N.minimum = _binary(_CORE_MINIMUM, 'minimum')
+    N.fmax, N.fmin = N.maximum, N.minimum
+    N.can_cast = np_can_cast
+    N.result_type = lambda *xs: S._DType('f' if any((x.kind if hasattr(x, 'kind') else S._kind_of_dtype(x)) == 'f' for x in xs) else 'i')
     N.less, N.less_equal = _binary(operator.lt, 'less'), _binary(operator.le, 'less_equal')
     N.greater, N.greater_equal = _binary(operator.gt, 'greater'), _binary(operator.ge, 'greater_equal')
     N.equal, N.not_equal = _binary(operator.eq, 'equal'), _binary(operator.ne, 'not_equal')
@@ -769,7 +895,7 @@ def apply():
     M.filled, M.getmaskarray, M.mask_or, M.masked_where = ma_filled, ma_getmaskarray, ma_mask_or, ma_masked_where
     M.masked_invalid, M.fix_invalid = ma_masked_invalid, ma_masked_invalid
     M.masked_equal, M.masked_not_equal = _ma_cmp_mask(operator.eq), _ma_cmp_mask(operator.ne)
-    M.masked_values = _ma_cmp_mask(operator.eq)
+    M.masked_values = ma_masked_values
     M.masked_less, M.masked_less_equal = _ma_cmp_mask(operator.lt), _ma_cmp_mask(operator.le)
     M.masked_greater, M.masked_greater_equal = _ma_cmp_mask(operator.gt), _ma_cmp_mask(operator.ge)
     M.count = ma_count
